@@ -883,3 +883,11 @@ func H_C09_commentAtSplit(slot, n int) {
 	marker := c09CommentText(n)
 	c09CheckComment(c09Fill(c09SplitTemplate, slot, marker, false), marker, c09SplitListed[slot])
 }
+
+// H_C09_commentThenBlank(slot, n): as H_C09_commentPlaces, but the comment is
+// followed by an empty line (a comment about the scope rather than about the
+// next element; it still precedes that element).
+func H_C09_commentThenBlank(slot, n int) {
+	marker := c09CommentText(n)
+	c09CheckComment(c09Fill(c09PlacesTemplate, slot, marker, true), marker, c09PlacesListed[slot])
+}
